@@ -8,9 +8,14 @@ from typing import Any
 import torch
 
 from simkfac import core, sched
-from simkfac.models import DTYPES
+from simkfac.models import DTYPES as _FLOAT_DTYPES
 
-ELSIZE = {'float32': 4, 'float64': 8, 'float16': 2, 'bfloat16': 2}
+# integer tensors are legal arguments too: a sum keeps the dtype, an average
+# promotes to the default float dtype ("(1 / n) * t"), bucketed or not
+DTYPES = dict(_FLOAT_DTYPES, int32=torch.int32, int64=torch.int64)
+
+ELSIZE = {'float32': 4, 'float64': 8, 'float16': 2, 'bfloat16': 2,
+          'int32': 4, 'int64': 8}
 
 
 def grid_groups(world: int, rows: int) -> dict[str, list[list[int]]]:
@@ -65,7 +70,8 @@ def make_tensor(call: dict[str, Any], cid: int, rank: int) -> torch.Tensor:
         # values float32 cannot represent (odd integers above 2**24): a
         # detour through a narrower dtype anywhere on the path shows
         t = t + float(2 ** 33 + 1) * (rank + 1) + float(2 ** 25)
-    if call.get('huge') and call['kind'] == 'broadcast' and t.numel():
+    if call.get('huge') and call['kind'] == 'broadcast' and t.numel() \
+            and t.is_floating_point():
         # finite values in the top half of the dtype's range (2x overflows):
         # a broadcast moves them unchanged, any arithmetic on the way may not
         top = {'float16': 1.5 * 2.0 ** 15, 'bfloat16': 1.5 * 2.0 ** 127,
@@ -304,7 +310,7 @@ def check(plan: dict[str, Any], res: dict[str, Any], mode: str,
                 bad('C08.result_changed_after_resolution', rank=rank,
                     cid=cid, call=call, mode=mode)
             if got is None or not _same(got, want.to(got.dtype)) or \
-                    got.dtype != DTYPES[call['dtype']] or \
+                    got.dtype != want.dtype or \
                     tuple(got.shape) != tuple(call['shape']):
                 props = ['C08'] if call['kind'] == 'allreduce_bucketed' \
                     and mode == 'as_planned' else []
@@ -429,6 +435,9 @@ def gen_comm_plan(rng: random.Random, *, tier: str, symmetric_only: bool,
         dtype = 'float32'
     n_calls = rng.randint(1, 5) if rng.random() < 0.5 else rng.randint(
         5, 14)
+    if not mixed_dtypes and n_calls % 7 == 3:
+        # integer tensors (no extra draw: older seeds keep their tape)
+        dtype = 'int64' if world % 2 else 'int32'
     calls: list[dict[str, Any]] = []
     sizes = []
     # a quarter of the plans hammer one (group, flags) combination so that
